@@ -128,10 +128,18 @@ P("rs_max", RS_MAX_COUNT); P("input_max", INPUT_MAX_COUNT); P("relay_max", RELAY
     if not (m1 and m2 and m3 and m4):
         raise ExtractError("rs_set_relay / relay_hi: delay literals not recognised")
     e.update({"rs_thresh": m1.group(1), "rs_oppUs": m2.group(1), "rs_preUs": m3.group(1), "rs_postUs": m4.group(1)})
+    f = run_probe("p_calcfg", """
+P("cal_enter", SUPLA_CALCFG_CMD_ENTER_CFG_MODE); P("cal_recal", SUPLA_CALCFG_CMD_RECALIBRATE);
+P("cal_dt_rs", SUPLA_CALCFG_DATATYPE_RS_SETTINGS); P("cal_rs_size", sizeof(TCalCfg_RollerShutterSettings));
+P("cal_done", SUPLA_CALCFG_RESULT_DONE); P("cal_unauth", SUPLA_CALCFG_RESULT_UNAUTHORIZED);
+P("cal_notsupp", SUPLA_CALCFG_RESULT_NOT_SUPPORTED); P("cfg_btn_press_time", CFG_BTN_PRESS_TIME);
+P("cfg_btn_press_count", CFG_BTN_PRESS_COUNT);
+""", includes_c=["supla_esp.h", "proto.h", "supla_esp_input.h"])
     a.update(b)
     a.update(c)
     a.update(d)
     a.update(e)
+    a.update(f)
     return a
 
 
@@ -142,6 +150,7 @@ def emit_consts():
         "import SuplaVerif.Model.Proto",
         "import SuplaVerif.Model.Dns",
         "import SuplaVerif.Model.RsRelay",
+        "import SuplaVerif.Model.CalCfg",
         "namespace SuplaVerif.Gen",
         "",
         "def protoParams : ProtoParams :=",
@@ -181,6 +190,12 @@ def emit_consts():
         "def rsMaxCount : Nat := %s" % k["rs_max"],
         "def inputMaxCount : Nat := %s" % k["input_max"],
         "def relayMaxCount : Nat := %s" % k["relay_max"],
+        "def calConsts : CalConsts :=",
+        "  { cmdEnterCfg := %s, cmdRecalibrate := %s, dtRsSettings := %s, rsSettingsSize := %s," % (
+            k["cal_enter"], k["cal_recal"], k["cal_dt_rs"], k["cal_rs_size"]),
+        "    resDone := %s, resUnauth := %s, resNotSupp := %s }" % (k["cal_done"], k["cal_unauth"], k["cal_notsupp"]),
+        "def cfgBtnPressTimeMs : Nat := %s" % k["cfg_btn_press_time"],
+        "def cfgBtnPressCount : Nat := %s" % k["cfg_btn_press_count"],
         "def dnsTimeoutMs : Nat := %s" % k["dns_timeout"],
         "def dnsRetryMs : Nat := %s" % k["dns_retry"],
         "/-- field offsets / literals of the reply parser the model hard-codes -/",
